@@ -288,18 +288,20 @@ theorem skipped_maySkip {σ : Space} {p : Field} {v : Val} (h : skipped σ p v =
 
 /-- every member written comes from a declared member, carries its wire name and the serialisation of its value -/
 theorem seFields_mem {σ : Space} {ty : Id → Val → Bool} {S : Id → Val → Except E Json} :
-    ∀ {pa : List Field} {fs : List (String × Val)} {es : List (String × Json)},
+    ∀ {pa : List Field} {fs : List (String × Val)} {es : List (String × Json)}, hasFlatten pa = false →
       fieldsTy σ ty pa fs = true → seFieldsR S σ pa fs = .ok es →
       ∀ kj ∈ es, ∃ p v, p ∈ pa ∧ tyOrNone σ ty p.ty v = true ∧ p.wire = kj.1 ∧ S p.ty v = .ok kj.2 := by
   intro pa
   induction pa with
   | nil =>
-    intro fs es ht hs kj hkj
+    intro fs es _ ht hs kj hkj
     cases fs with
     | nil => simp [seFieldsR] at hs; subst hs; simp at hkj
     | cons _ _ => simp [fieldsTy] at ht
   | cons p ps ih =>
-    intro fs es ht hs kj hkj
+    intro fs es hfl ht hs kj hkj
+    obtain ⟨hpf, hrf⟩ := hasFlatten_cons hfl
+    have ih := fun {fs es} => @ih fs es hrf
     cases fs with
     | nil => simp [fieldsTy] at ht
     | cons e fs' =>
@@ -307,7 +309,7 @@ theorem seFields_mem {σ : Space} {ty : Id → Val → Bool} {S : Id → Val →
       simp only [fieldsTy, Bool.and_eq_true] at ht
       simp only [seFieldsR] at hs
       split at hs
-      · simp at hs
+      · rename_i hcf; rw [hpf] at hcf; simp at hcf
       · cases hr : seFieldsR S σ ps fs' with
         | error e => rw [hr] at hs; simp at hs
         | ok rest =>
@@ -328,20 +330,22 @@ theorem seFields_mem {σ : Space} {ty : Id → Val → Bool} {S : Id → Val →
 
 /-- a member that is never skipped is written -/
 theorem seFields_written {σ : Space} {S : Id → Val → Except E Json} :
-    ∀ {pa : List Field} {fs : List (String × Val)} {es : List (String × Json)},
+    ∀ {pa : List Field} {fs : List (String × Val)} {es : List (String × Json)}, hasFlatten pa = false →
       seFieldsR S σ pa fs = .ok es → ∀ p ∈ pa, maySkip σ p = false → ∃ j, (p.wire, j) ∈ es := by
   intro pa
   induction pa with
-  | nil => intro fs es _ p hp; simp at hp
+  | nil => intro fs es _ _ p hp; simp at hp
   | cons q ps ih =>
-    intro fs es hs p hp hms
+    intro fs es hfl hs p hp hms
+    obtain ⟨hpf, hrf⟩ := hasFlatten_cons hfl
+    have ih := fun {fs es} => @ih fs es hrf
     cases fs with
     | nil => simp [seFieldsR] at hs
     | cons e fs' =>
       obtain ⟨n, v⟩ := e
       simp only [seFieldsR] at hs
       split at hs
-      · simp at hs
+      · rename_i hcf; rw [hpf] at hcf; simp at hcf
       · cases hr : seFieldsR S σ ps fs' with
         | error e => rw [hr] at hs; simp at hs
         | ok rest =>
@@ -391,7 +395,7 @@ theorem struct_NR {rec : Id → Id → Bool} {ty : Id → Val → Bool} (H : Hyp
       rw [Bool.eq_false_iff]
       intro hc
       obtain ⟨kv, hkv, hnot⟩ := List.any_eq_true.mp hc
-      obtain ⟨p, v, hp, _, hw, _⟩ := seFields_mem hty hse kv hkv
+      obtain ⟨p, v, hp, _, hw, _⟩ := seFields_mem hfa hty hse kv hkv
       have := List.all_eq_true.mp hall p hp
       split at this
       · rename_i q hq
@@ -417,7 +421,7 @@ theorem struct_NR {rec : Id → Id → Bool} {ty : Id → Val → Bool} (H : Hyp
       cases hl : Json.lookup es q.wire with
       | some jq =>
         simp only
-        obtain ⟨p, v, hp, hpt, hw, hsv⟩ := seFields_mem hty hse (q.wire, jq) (lookup_mem hl)
+        obtain ⟨p, v, hp, hpt, hw, hsv⟩ := seFields_mem hfa hty hse (q.wire, jq) (lookup_mem hl)
         have hp' := List.all_eq_true.mp hall p hp
         have hfq : pb.find? (fun q' => q'.wire == q.wire) = some q := nodupB_find_gen (·.wire) hnb q hq
         simp only at hw
@@ -439,7 +443,7 @@ theorem struct_NR {rec : Id → Id → Bool} {ty : Id → Val → Bool} (H : Hyp
           · split at hq'
             · rename_i p hfp
               obtain ⟨hpm, hpw⟩ := find_some_mem hfp
-              obtain ⟨j, hj⟩ := seFields_written hse p hpm (by simpa using hq')
+              obtain ⟨j, hj⟩ := seFields_written hfa hse p hpm (by simpa using hq')
               have hpw' : p.wire = q.wire := by simpa using hpw
               rw [hpw'] at hj
               exact absurd hl (mem_lookup_ne_none hj)
@@ -701,7 +705,9 @@ theorem enum_NR {rec : Id → Id → Bool} {ft : Nat} (H : Hyp x σa σb rec (ty
           rename_i pb
           have hnokey : ∀ kv ∈ es, kv.1 ≠ tg := by
             intro kv hkv heq
-            obtain ⟨p', v', hp', _, hw', _⟩ := seFields_mem hty hz kv hkv
+            have hfa : hasFlatten ps = false := by
+              have h := hvd; simp only [fieldsAcc, Bool.and_eq_true, Bool.not_eq_true'] at h; exact h.1.1.1.1.1
+            obtain ⟨p', v', hp', _, hw', _⟩ := seFields_mem hfa hty hz kv hkv
             have : (ps.any fun p => p.wire == tg) = true :=
               List.any_eq_true.mpr ⟨p', hp', by rw [hw', heq]; simp⟩
             rw [this] at hok; simp at hok
